@@ -83,6 +83,30 @@ def find_function(qualname):
     return node, modname, hashlib.sha256(seg.encode()).hexdigest()[:16]
 
 
+def find_function_by_role(within, text):
+    """The innermost function defined (at any depth: method, closure) inside `within` (a class or function, by
+    qualified name) whose source contains `text` -- for a helper that a refactoring may turn from a closure into a
+    method or rename.  Returns (node, module name, hash, is_method) or raises KeyError when there is not exactly one."""
+    modname, path = split_qualname(within)
+    tree, src = module_ast(modname)
+    body = tree.body
+    owner = tree
+    for p in path:
+        owner = _find(body, p)
+        if owner is None:
+            raise KeyError(f"{within}: '{p}' not found in {modname}")
+        body = owner.body
+    cands = [n for n in ast.walk(owner) if n is not owner and isinstance(n, (ast.FunctionDef, ast.AsyncFunctionDef))
+             and text in (ast.get_source_segment(src, n) or "")]
+    inner = [n for n in cands if not any(m is not n and any(x is m for x in ast.walk(n)) for m in cands)]
+    if len(inner) != 1:
+        raise KeyError(f"{within}: {len(inner)} functions contain {text!r}")
+    node = inner[0]
+    is_method = isinstance(owner, ast.ClassDef) and any(x is node for x in owner.body)
+    seg = ast.get_source_segment(src, node) or ""
+    return node, modname, hashlib.sha256(seg.encode()).hexdigest()[:16], is_method
+
+
 def function_ast_of(pyfunc):
     """AST of a live python function object defined in an interpretable module."""
     qn = pyfunc.__module__ + "." + pyfunc.__qualname__
